@@ -65,15 +65,26 @@ func VerifC06Proposal() {
 	var has [3]bool
 	var first [3]byte
 	type q struct {
-		slot uint64
-		resp chan *eth2api.VersionedProposal
-		done bool
+		slot      uint64
+		resp      chan *eth2api.VersionedProposal
+		done      bool
+		cancelled bool
+		cancelCh  chan struct{}
 	}
 	var qs []*q
 	pendingExpire := uint64(0)
+	cmask := vrt.Param("cancel") // bit i: the query registered by operation i is cancelled right after registering
 	checkQueries := func(successfulStore bool) {
 		for _, x := range qs {
 			if x.done {
+				continue
+			}
+			if x.cancelled {
+				select {
+				case <-x.resp:
+					x.done = true // answering a cancelled query is harmless; it must just not disturb the others
+				default:
+				}
 				continue
 			}
 			select {
@@ -94,6 +105,12 @@ func VerifC06Proposal() {
 		ops /= 3
 		switch op {
 		case opStore:
+			for _, x := range qs {
+				if x.cancelCh != nil && !x.cancelled {
+					close(x.cancelCh) // Await* closes its cancel channel when it returns
+					x.cancelled = true
+				}
+			}
 			slot := uint64(vrt.Byte(vrt.N("slot", i)))
 			gr := vrt.Byte(vrt.N("graffiti", i))
 			vrt.Assume(slot >= 1 && slot <= 2)
@@ -118,12 +135,16 @@ func VerifC06Proposal() {
 			x := &q{slot: uint64(vrt.Byte(vrt.N("qslot", i))), resp: make(chan *eth2api.VersionedProposal, 1)}
 			vrt.Assume(x.slot >= 1 && x.slot <= 2)
 			// AwaitProposal's critical section
+			cancel := make(chan struct{})
 			db.mu.Lock()
-			db.proQueries = append(db.proQueries, proQuery{Key: x.slot, Response: x.resp, Cancel: make(chan struct{})})
+			db.proQueries = append(db.proQueries, proQuery{Key: x.slot, Response: x.resp, Cancel: cancel})
 			db.resolveProQueriesUnsafe()
 			db.mu.Unlock()
 			qs = append(qs, x)
 			checkQueries(true)
+			if (cmask>>i)&1 == 1 {
+				x.cancelCh = cancel // this caller gives up (its context ends) just before the next Store
+			}
 		case opExpire:
 			s := uint64(vrt.Byte(vrt.N("xslot", i)))
 			vrt.Assume(s >= 1 && s <= 2 && pendingExpire == 0)
